@@ -331,7 +331,21 @@ class Fn:
             name = s.exc.func.id if isinstance(s.exc, ast.Call) and isinstance(s.exc.func, ast.Name) else None
             if name not in EXC:
                 _fail(s, "unsupported raise")
-            return [f"{p}throw Err.{EXC[name]}"]
+            # the message is evaluated before the exception is raised: a look-up inside an f-string that fails
+            # (`x.shape[k]`) raises its own error first
+            pre = []
+            for a in s.exc.args:
+                for fv in (a.values if isinstance(a, ast.JoinedStr) else []):
+                    if not isinstance(fv, ast.FormattedValue):
+                        continue
+                    v = fv.value
+                    if (isinstance(v, ast.Call) and ast.unparse(v.func) == "type" and len(v.args) == 1
+                            and ast.unparse(v.args[0]) + "::type" in self.env):
+                        continue
+                    t, _ = self.expr(v)
+                    if "←" in t:
+                        pre.append(f"{p}let _ := {t}")
+            return pre + [f"{p}throw Err.{EXC[name]}"]
         if isinstance(s, ast.Return):
             t, ty = self.expr(s.value)
             if ty != self.result:
